@@ -25,8 +25,8 @@ ENGINE = 'E3-explicit-state-bfs'
 TECHNIQUE = ('explicit-state exploration of call histories x heap-content alphabet x thread settings with a differential '
              'oracle (same call from the pristine state), each history in a forked child; exhaustive AST site enumeration '
              'of masked ufunc calls without out=')
-RULE = ('routine menu (entropy/KL/JS, mutual_information incl. an all-zero block, weighted_mi, normalisation, joint_counts, '
-        'builders, counts, trimming, eigenspectrum, tpt, paths, nearest-centre assignment, seeded kcenters/kmedoids/hybrid, distance '
+RULE = ('routine menu (entropy/KL/JS, mutual_information on tables of one shape with and without an all-zero block, weighted_mi, normalisation, joint_counts, '
+        'builders, counts, trimming, eigenspectrum, tpt, paths (built-in schemes and a user-supplied in-place removal callable), nearest-centre assignment, seeded kcenters/kmedoids/hybrid, distance '
         'kernels, RaggedArray operators, ra.save/load, load_as_concatenated on the simulated pool); histories: every ordered '
         'pair of routines (T: + triples over a 12-routine core) x heap words {0.0,NaN,+inf,1.0,-3.5,0xFF..FF,1e300}; thread '
         'settings: gompshim T in {1,2,3} default and reversed order, real libgomp 1/2/16 threads; state = fingerprint of all '
@@ -70,6 +70,10 @@ def _menu():
     m['js'] = lambda: (ent.js_divergence, (np.array([0.5, 0.0, 0.5]), np.array([0.25, 0.25, 0.5])), {})
     m['mutual_information'] = lambda: (mi.mutual_information, (mi.joint_counts(F(), n_x=3),), {})
     m['mutual_information_zero_block'] = lambda: (mi.mutual_information, (jc0(),), {})
+    # the same SHAPE with every block populated: a masked evaluation that keeps state between calls shows when the two alternate
+    m['mutual_information_full_block'] = lambda: (mi.mutual_information, (np.array(
+        [[[[2, 0], [1, 1]], [[1, 2], [0, 1]]], [[[1, 0], [2, 1]], [[1, 1], [0, 2]]]], dtype=np.uint32),), {})
+    m['kl_pos'] = lambda: (ent.kl_divergence, (np.array([0.2, 0.3, 0.5]), np.array([0.25, 0.25, 0.5])), {})
     m['joint_counts'] = lambda: (mi.joint_counts, (F(), F()[:, :1].copy()), {'n_x': 3, 'n_y': 2})
     m['weighted_mi'] = lambda: (mi.weighted_mi, (F().astype(np.int64), np.array([0.1, 0.2, 0.3, 0.4])), {'n_feature_states': np.array([2, 3])})
     m['mi_matrix'] = lambda: (mi.mi_matrix, ([F(), F()[::-1].copy()], [F(), F()], np.array([2, 3]), np.array([2, 3])), {})
@@ -90,6 +94,13 @@ def _menu():
     m['reactive_populations'] = lambda: (tpt.reactive_populations, (T(), [0], [2]), {'populations': np.array([0.25, 0.5, 0.25])})
     m['top_path'] = lambda: (tpt.top_path, ([0], [3], flux()), {})
     m['paths'] = lambda: (tpt.paths, ([0], [3], flux()), {'remove_path': 'subtract'})
+    def inplace_remover(nf, path):
+        # a user-supplied removal scheme (documented third option) that works in place on the matrix it is handed
+        path = np.asarray(path)
+        f = nf[path[:-1], path[1:]].min()
+        nf[path[:-1], path[1:]] -= f
+        return nf
+    m['paths_callable_inplace'] = lambda: (tpt.paths, ([0], [3], flux()), {'remove_path': inplace_remover})
     m['paths_bottleneck'] = lambda: (tpt.paths, ([0], [3], flux()), {'remove_path': 'bottleneck', 'num_paths': 2})
     m['synthetic_ensemble'] = lambda: (synthetic_data.synthetic_ensemble, (T(), np.array([1.0, 0, 0]), 4), {})
     m['assign_to_nearest_center'] = lambda: (cu.assign_to_nearest_center, (X(), [X()[0], X()[3]], libdist.euclidean), {})
@@ -508,7 +519,7 @@ MENU_NAMES = ['euclidean_wide', 'kcenters_wide', 'mi_to_nmi', 'mi_to_apc', 'mi_t
               'ra_getitem_index_arrays', 'ra_getitem_0d_index', 'ra_setitem_index_arrays', 'ra_getitem_rowarray',
               'partition_indices_ndarray', 'cluster_partition', 'reactive_populations_given', 'eigenspectrum_sparse_1000',
               'eq_probs_sparse_1000', 'shannon_entropy_zero', 'shannon_entropy_2d_zero', 'shannon_entropy_pos', 'kl', 'js', 'mutual_information',
-              'mutual_information_zero_block', 'joint_counts', 'weighted_mi', 'mi_matrix', 'ccn', 'builder_normalize',
+              'mutual_information_zero_block', 'mutual_information_full_block', 'kl_pos', 'paths_callable_inplace', 'joint_counts', 'weighted_mi', 'mi_matrix', 'ccn', 'builder_normalize',
               'builder_normalize_csr_prior', 'builder_transpose', 'builder_transpose_csr_prior', 'builder_mle',
               'builder_mle_csr_prior', 'assigns_to_counts', 'trim_disconnected', 'eigenspectrum', 'eq_probs_csr', 'committors',
               'committors_csr', 'mfpts_all', 'mfpts_sink', 'reactive_fluxes', 'net_fluxes_csr', 'reactive_populations', 'top_path',
